@@ -1,6 +1,6 @@
 #!/bin/bash
 # tools/own_matrix.sh <out-file> [seeds...] -- every seeded change against the quick check of the property it breaks
-# (scratch worktree + SKGSTAT_REPO); one line per (change, seed). For `vp run`: builds Lean when .lake is absent.
+# (scratch worktree + SKGSTAT_REPO); one line per (change, seed). ONLY=<regex> restricts the changes (parallel runs). For `vp run`: builds Lean when .lake is absent.
 set -u
 cd "$(dirname "$0")/.."
 out=$1; shift
@@ -8,6 +8,7 @@ seeds=${*:-0 1}
 [ -d lean/.lake ] || (cd lean && lake build >/dev/null 2>&1)
 for sd in seeded/*/; do
   name=$(basename $sd); prop=${name%%-*}
+  if [ -n "${ONLY:-}" ] && ! [[ $name =~ $ONLY ]]; then continue; fi
   wt=$(mktemp -d /tmp/wt_own_XXXX); rmdir $wt
   git -C /repo worktree add --detach $wt HEAD >/dev/null 2>&1 || continue
   git -C $wt apply "$(readlink -f $sd/patch.diff)" || { echo "$name PATCH-DOES-NOT-APPLY" >> $out; git -C /repo worktree remove --force $wt; continue; }
